@@ -111,15 +111,18 @@ QB(S, b) ==
       bp == [i \in 0..n |-> BP(s, i)]
       PB(i) == IF i < 0 THEN -1 ELSE bp[i]
       suf == [i \in 1..(n + 1) |-> Str(Drop(s, i - 1))]
+      M == [k \in 1..Len(Pats) |-> {i \in 0..n : MatchAt(s, Pats[k], i)}]      \* all match positions, once
+      FM(k, from, lim) == LET X == {i \in M[k] : i >= from}
+                          IN IF X = {} THEN -1 ELSE IF MinSet(X) + Len(Pats[k]) <= lim THEN MinSet(X) ELSE -1
   IN [ n  |-> bp[n],                                        \* evbuffer_get_length
        c  |-> suf[1],                                       \* content read from the chain list
        co |-> IF fz /\ n > 0 THEN "!" ELSE suf[1],          \* evbuffer_copyout(everything)
        sf |-> [i \in 1..(n + 1) |-> IF fz /\ i <= n THEN "!" ELSE suf[i]],   \* ptr_set(SET) + copyout_from
        pk |-> suf,                                          \* ptr_set(SET) + peek(-1, ptr)
        pa |-> [i \in 1..(n + 1) |-> IF i <= n THEN bp[i] ELSE -1],   \* ptr_set(ADD to next boundary / 1 past end)
-       se |-> [k \in 1..Len(Pats) |-> [i \in 1..(n + 1) |-> PB(First(s, Pats[k], i - 1, n))]],
+       se |-> [k \in 1..Len(Pats) |-> [i \in 1..(n + 1) |-> PB(FM(k, i - 1, n))]],
        sr |-> IF n = 0 THEN <<>>
-              ELSE [k \in 1..Len(Pats) |-> [i \in 1..(n + 1) |-> PB(First(s, Pats[k], i - 1, n - 1))]],
+              ELSE [k \in 1..Len(Pats) |-> [i \in 1..(n + 1) |-> PB(FM(k, i - 1, n - 1))]],
        el |-> [y \in 1..5 |-> [i \in 1..(n + 1) |-> LET e == Eol(s, i - 1, y - 1) IN <<PB(e[1]), e[2]>>]],
        fr |-> <<IF S.fs[b] THEN 1 ELSE 0, IF S.fe[b] THEN 1 ELSE 0>> ]
 
@@ -153,7 +156,8 @@ Reports(S, b, order, info, deferredRun) ==
    by some operations when nothing changed (add of 0 bytes, drain(0) ...), which in
    deferred mode still schedules the deferred run (matters for the order of runs). *)
 Sched(S, b) == IF \E i \in 1..Len(S.pq) : S.pq[i] = b THEN S ELSE [S EXCEPT !.pq = Append(@, b)]
-Changed(S, b, add, del) ==
+Changed(S0, b, add, del) ==
+  LET S == [S0 EXCEPT !.led[b] = @ + add - del] IN     \* ghost ledger: what the accounting believes the length is
   IF CbMode = 0 THEN S
   ELSE IF ~AnyCb(S, b) THEN [S EXCEPT !.acc[b] = <<0, 0>>]
   ELSE LET a1 == S.acc[b][1] + add
@@ -177,7 +181,7 @@ InitSt ==
     ec |-> [b \in Bufs |-> FALSE],          \* empty, but may own an (empty) chain
     cb |-> [b \in Bufs |-> [k \in 1..NCB |-> InitCb]],
     cbo |-> [b \in Bufs |-> <<>>],
-    acc |-> [b \in Bufs |-> <<0, 0>>],
+    acc |-> [b \in Bufs |-> <<0, 0>>], led |-> [b \in Bufs |-> 0],
     pq |-> <<>>,                             \* buffers whose deferred run is scheduled, in scheduling order
     cblog |-> <<>> ]
 
@@ -361,9 +365,23 @@ OpSane(S, op) ==
 Obs(S, o) == IF CbMode = 0 THEN o @@ [q |-> [b \in Bufs |-> QB(S, b)]]
              ELSE o @@ [q |-> [b \in Bufs |-> QB(S, b)], cb |-> S.cblog]
 
-(* A call is generated in two steps so that TLC's simulator (which computes every successor
-   before picking one) only evaluates the expensive observation for the chosen operation:
-   Do picks the operation, Apply performs it and records the observation. *)
+(* One call: the new state and the complete observation *)
+StepR(S, op) ==
+  LET Rr == ApplyOp([S EXCEPT !.cblog = <<>>], op)
+      S2 == [Rr.s EXCEPT !.ec = [b \in Bufs |->
+                IF Rr.s.buf[b] # <<>> THEN FALSE
+                ELSE IF op.a \in {"expand", "add", "printf", "rescommit", "addiov", "addfile"} /\ op.b = b /\ Rr.o.r # -1 THEN TRUE
+                ELSE IF S.buf[b] # <<>> THEN FALSE ELSE S.ec[b]]]
+  IN [s |-> S2, r |-> Rr.o]
+Step(S, op) == LET x == StepR(S, op) IN [s |-> x.s, o |-> Obs(x.s, x.r)]
+
+(* `hist` holds the calls only (small states: TLC's simulator computes every successor before
+   picking one); the observations are recomputed by replaying the calls when a history is printed. *)
+RECURSIVE Rep(_, _)
+Rep(S, ops) == IF ops = <<>> THEN <<>>
+               ELSE LET x == Step(S, Head(ops)) IN <<Head(ops) @@ [o |-> x.o]>> \o Rep(x.s, Tail(ops))
+
+(* A call is generated in two steps: Do picks the operation, Apply performs it. *)
 Do(fam) ==
   /\ fam \in Acts
   /\ Len(hist) < D
@@ -373,14 +391,8 @@ Do(fam) ==
 
 Apply ==
   /\ pend # NoOp
-  /\ LET op == pend
-         Rr == ApplyOp([st EXCEPT !.cblog = <<>>], op)
-         S2 == [Rr.s EXCEPT !.ec = [b \in Bufs |->
-                   IF Rr.s.buf[b] # <<>> THEN FALSE
-                   ELSE IF op.a \in {"expand", "add", "printf", "rescommit", "addiov", "addfile"} /\ op.b = b /\ Rr.o.r # -1 THEN TRUE
-                   ELSE IF st.buf[b] # <<>> THEN FALSE ELSE st.ec[b]]]
-     IN /\ st' = S2
-        /\ hist' = Append(hist, op @@ [o |-> Obs(S2, Rr.o)])
+  /\ st' = StepR(st, pend).s
+  /\ hist' = Append(hist, pend)
   /\ pend' = NoOp
 
 Add == Do("add")
@@ -418,11 +430,7 @@ Spec == Init /\ [][Next]_vars
 Syms == {"a", "b", "C", "L", "N"}
 TypeOK == \A b \in Bufs : Len(st.buf[b]) <= MaxLen /\ \A i \in 1..Len(st.buf[b]) : st.buf[b][i] \in Syms
 
-Last == hist[Len(hist)]
-TotalBytes(S) == Bytes(S.buf[1]) + Bytes(S.buf[2])
-
-(* C12: the reported length is the sum of the symbol widths; every search result is a
-   real match and no earlier match exists; eol results split at the terminator *)
+(* C12: every search result is a real match and no earlier match exists; eol results split at a terminator *)
 SearchSound ==
   \A b \in Bufs : LET s == st.buf[b] IN
     \A k \in 1..Len(Pats) : \A i \in 0..Len(s) :
@@ -436,30 +444,37 @@ EolSound ==
       IN e[1] >= 0 => /\ e[1] >= i /\ e[2] >= 1 /\ e[1] + e[2] <= Len(s)
                       /\ \A j \in (e[1] + 1)..(e[1] + e[2]) : s[j] \in {"C", "L", "N"}
 
-(* C12/C14: moves conserve the concatenation of both buffers; a failed call (r = -1) changes nothing *)
-MovesConserve ==
-  [][\A op \in {hist'[Len(hist')]} :
-        (Len(hist') > Len(hist) /\ op.a \in {"addbuf", "prependbuf", "rmbuf"})
-        => TotalBytes(st') = TotalBytes(st)]_vars
+TotalBytes(S) == Bytes(S.buf[1]) + Bytes(S.buf[2])
+Nxt == LET x == StepR(st, pend) IN [s |-> x.s, o |-> x.r]          \* only meaningful when pend # NoOp
+
+(* C12/C14: moves conserve the concatenation of both buffers *)
+MovesConserve == (pend # NoOp /\ pend.a \in {"addbuf", "prependbuf", "rmbuf"}) => TotalBytes(Nxt.s) = TotalBytes(st)
+(* C12/C14: a failed call (r = -1) changes nothing and reports nothing *)
 FailureUnchanged ==
-  [][(Len(hist') > Len(hist) /\ hist'[Len(hist')].o.r = -1)
-       => (st'.buf = st.buf /\ st'.fs = st.fs /\ st'.fe = st.fe /\ st'.cb = st.cb)]_vars
+  (pend # NoOp /\ Nxt.o.r = -1)
+    => (Nxt.s.buf = st.buf /\ Nxt.s.fs = st.fs /\ Nxt.s.fe = st.fe /\ Nxt.s.cb = st.cb /\ Nxt.s.acc = st.acc /\ Nxt.s.cblog = <<>>)
+(* C12: a returned count is the number of bytes that really moved *)
+CountsExact ==
+  (pend # NoOp /\ pend.a \in {"remove", "rmbuf"} /\ Nxt.o.r >= 0) => Bytes(st.buf[pend.b]) - Bytes(Nxt.s.buf[pend.b]) = Nxt.o.r
 
-(* C13 on the model *)
-RECURSIVE SumF(_, _)
-SumF(s, f) == IF s = <<>> THEN 0 ELSE s[1][f] + SumF(Tail(s), f)
+(* C13 on the model: the accounting ledger equals the real length (every change of a buffer is
+   accounted with the right added/deleted amounts); every report is consistent with the length;
+   immediate mode leaves nothing unreported; deferred mode never forgets to schedule a run. *)
+LedgerExact == \A b \in Bufs : st.led[b] = Bytes(st.buf[b])
 ReportConsistent ==
-  \A i \in 1..Len(hist) : "cb" \in DOMAIN hist[i].o =>
-     \A j \in 1..Len(hist[i].o.cb) : LET rp == hist[i].o.cb[j] IN rp.o + rp.a - rp.d >= 0
-AccBounded == \A b \in Bufs : st.acc[b][1] >= 0 /\ st.acc[b][2] >= 0
-(* deferred: pending accumulators are reported by the next loop; nothing pending after it *)
-LoopFlushes == [][(Len(hist') > Len(hist) /\ hist'[Len(hist')].a = "loop")
-                    => st'.pq = <<>> /\ \A b \in Bufs : (st.acc[b] # <<0, 0>> => b \in {st.pq[i] : i \in 1..Len(st.pq)}) ]_vars
+  pend # NoOp => \A j \in 1..Len(Nxt.s.cblog) : LET rp == Nxt.s.cblog[j] IN rp.o + rp.a - rp.d >= 0 /\ rp.a + rp.d > 0
+NothingPending == \A b \in Bufs : /\ st.acc[b][1] >= 0 /\ st.acc[b][2] >= 0
+                                    /\ (CbMode = 1 => st.acc[b] = <<0, 0>>)
+                                    /\ (CbMode = 2 /\ st.acc[b] # <<0, 0>> => \E i \in 1..Len(st.pq) : st.pq[i] = b)
+DisabledSilent ==
+  pend # NoOp => \A j \in 1..Len(Nxt.s.cblog) : LET rp == Nxt.s.cblog[j] IN st.cb[rp.b][rp.cb].on /\ st.cb[rp.b][rp.cb].en
+LoopFlushes == (pend # NoOp /\ pend.a = "loop") => (Nxt.s.pq = <<>> /\ \A b \in Bufs : AnyCb(st, b) => Nxt.s.acc[b] = <<0, 0>>)
 
-Inv == TypeOK /\ SearchSound /\ EolSound /\ ReportConsistent /\ AccBounded
+Inv == TypeOK /\ SearchSound /\ EolSound /\ MovesConserve /\ FailureUnchanged /\ CountsExact
+       /\ LedgerExact /\ ReportConsistent /\ NothingPending /\ DisabledSilent /\ LoopFlushes
 
 ----------------------------------------------------------------------------
 GenConstraint == Len(hist) <= D
-Emit == (Len(hist) = D /\ pend = NoOp) => PrintT(ToJson(hist))
-StateView == <<st>>
+Emit == (Len(hist) = D /\ pend = NoOp) => PrintT(ToJson(Rep(InitSt, hist)))
+StateView == <<st, pend>>
 =============================================================================
